@@ -6,17 +6,13 @@ From Verif Require Import Common.Base Model.Signaling Proofs.Signaling Proofs.Si
 Lemma err_inj {A} (a b : string) : @Err A a = Err b -> a = b.
 Proof. intro H; inversion H; reflexivity. Qed.
 
-Lemma pre_not_send : ~ pre_error ESend.
-Proof.
-  unfold pre_error; intros [H | [H | [H | [H | H]]]]; discriminate.
-Qed.
-
 Lemma set_local_pre_unchanged r n d n' e :
   set_local r n d = (n', Err e) -> pre_error e -> n' = n.
 Proof.
   intros H Hp. apply set_local_cases in H.
   destruct H as [[H _] | [_ [H | H]]]; [exact H | discriminate|].
-  apply err_inj in H. subst e. exfalso. exact (pre_not_send Hp).
+  exfalso. apply (pre_post_disjoint e Hp). apply local_post.
+  destruct H as [H | H]; apply err_inj in H; auto.
 Qed.
 
 Lemma set_remote_pre_unchanged r n d n' e :
@@ -27,8 +23,15 @@ Proof.
   apply err_inj in H. subst e'. exfalso. exact (pre_post_disjoint e Hp Hpost).
 Qed.
 
-Lemma send_is_post : post_error ESend.
-Proof. unfold post_error; auto 10. Qed.
+Lemma events_grow_neq (n n' : neg) :
+  events n' = (events n ++ [st n'])%list -> n' <> n.
+Proof.
+  intros Hev Heq. rewrite Heq in Hev.
+  assert (Hl : List.length (events n) = List.length ((events n ++ [st n])%list))
+    by (rewrite <- Hev; reflexivity).
+  rewrite app_length in Hl. cbn in Hl.
+  clear -Hl. induction (List.length (events n)); cbn in Hl; [discriminate | inversion Hl; auto].
+Qed.
 
 (* every error is of one of the two kinds, and the kind tells whether the
    transition was applied *)
@@ -46,19 +49,15 @@ Proof.
     destruct Hsd as [_ [sd' [next [_ [_ [Hn _]]]]]].
     assert (Hev : events n' = (events n ++ [st n'])%list).
     { subst n'. cbn. f_equal. apply apply_slots_keeps. }
-    split; [|exact Hev]. intro Heq. rewrite Heq in Hev.
-    assert (Hl : List.length (events n) = List.length ((events n ++ [st n])%list))
-      by (rewrite <- Hev; reflexivity).
-    rewrite app_length in Hl. cbn in Hl.
-    clear -Hl. induction (List.length (events n)); cbn in Hl; [discriminate | inversion Hl; auto]. }
+    split; [|exact Hev]. exact (events_grow_neq n n' Hev). }
   pose proof (set_step_edge r n sd d n' (Err e) H) as Hedge.
   destruct sd; cbn in H.
   - apply set_local_cases in H.
     destruct H as [[Hn [e' [He Hp]]] | [Hsd [He | He]]]; [|discriminate|].
     + apply err_inj in He. subst e'. left; auto.
-    + apply err_inj in He. subst e. right.
-      destruct (Hchg _ _ Hsd) as [Hne Hev].
-      split; [exact send_is_post|]. split; [exact Hne|].
+    + right. destruct (Hchg _ _ Hsd) as [Hne Hev].
+      split; [apply local_post; destruct He as [He | He]; apply err_inj in He; auto|].
+      split; [exact Hne|].
       destruct Hedge as [Hq | Hq]; [contradiction | auto].
   - apply set_remote_cases in H.
     destruct H as [[Hn [e' [He Hp]]] | [Hsd [He | [e' [He Hp]]]]]; [|discriminate|].
@@ -67,4 +66,57 @@ Proof.
       destruct (Hchg _ _ Hsd) as [Hne Hev].
       split; [exact Hp|]. split; [exact Hne|].
       destruct Hedge as [Hq | Hq]; [contradiction | auto].
+Qed.
+
+(* an error is returned with the negotiation record changed exactly when its
+   class is one of those raised after setDescription *)
+Lemma set_step_error_after_iff r n sd d n' e :
+  step_r r n (set_op sd d) = (n', Err e) -> (n' <> n <-> post_error e).
+Proof.
+  intro H. apply set_step_error_kinds in H.
+  destruct H as [[Hp Hn] | [Hp [Hn _]]]; split; intro Hx.
+  - contradiction.
+  - exfalso. exact (pre_post_disjoint e Hp Hx).
+  - exact Hp.
+  - exact Hn.
+Qed.
+
+(* the classes a side can raise after the transition *)
+Lemma set_local_post_classes r n d n' e :
+  set_local r n d = (n', Err e) -> post_error e -> e = ESend \/ e = EGather.
+Proof.
+  intros H Hp. apply set_local_cases in H.
+  destruct H as [[_ [e' [He Hpre]]] | [_ [H | [H | H]]]].
+  - apply err_inj in He. subst e'. exfalso. exact (pre_post_disjoint e Hpre Hp).
+  - discriminate.
+  - apply err_inj in H. auto.
+  - apply err_inj in H. auto.
+Qed.
+
+Lemma remote_after_classes d e :
+  remote_after d = Some e -> e = ECodec \/ e = EStop \/ e = EAddCand \/ e = ESend.
+Proof.
+  unfold remote_after.
+  repeat match goal with |- context [if ?c then _ else _] => destruct c end;
+    intro H; inversion H; auto.
+Qed.
+
+Lemma set_remote_post_classes r n d n' e :
+  set_remote r n d = (n', Err e) -> post_error e ->
+  e = ECodec \/ e = EStop \/ e = EAddCand \/ e = ESend.
+Proof.
+  intros H Hp.
+  assert (Hpre : pre_error e -> e = ECodec \/ e = EStop \/ e = EAddCand \/ e = ESend)
+    by (intro Hx; exfalso; exact (pre_post_disjoint e Hx Hp)).
+  unfold set_remote in H.
+  destruct (closed n); [inversion H; subst; apply Hpre; in_classes|].
+  destruct (parses (t_fl (d_txt d))); cbn in H; [|inversion H; subst; apply Hpre; in_classes].
+  set (skip := r_empty_rb r && sdptype_eqb (d_ty d) Rollback) in H.
+  destruct (if skip then None else remote_validate _ d) as [e0|] eqn:Ev.
+  { inversion H; subst. apply Hpre. destruct skip; [discriminate|].
+    eapply remote_validate_pre; exact Ev. }
+  destruct (set_description r n d SetRemote) as [n1 [e0|]] eqn:Esd.
+  { inversion H; subst. apply Hpre. apply set_description_err in Esd. tauto. }
+  destruct (if skip then None else remote_after d) as [e0|] eqn:Ea; inversion H; subst.
+  destruct skip; [discriminate|]. eapply remote_after_classes; exact Ea.
 Qed.
